@@ -35,7 +35,7 @@ theorem clWait_step (cfg : Cfg) (s t : St) (f : Bool) (h : Step cfg f s t) (i' :
     (try simp only [St.setDone, St.setBg]) <;> (repeat' split) <;> (try simp only [List.getElem?_set]) <;> grind [St.setBg, St.setDone, St.bg, clearW, onOk, onErr, selNext, afterSetErr]
   | startCR _ i hi =>
     (try simp only [St.setDone, St.setBg]) <;> (repeat' split) <;> (try simp only [List.getElem?_set]) <;> grind [St.setBg, St.setDone, St.bg, clearW, onOk, onErr, selNext, afterSetErr]
-  | startSR _ i hi =>
+  | startSR _ i hi ha =>
     (try simp only [St.setDone, St.setBg]) <;> (repeat' split) <;> (try simp only [List.getElem?_set]) <;> grind [St.setBg, St.setDone, St.bg, clearW, onOk, onErr, selNext, afterSetErr]
   | startClose _ i hi =>
     (try simp only [St.setDone, St.setBg]) <;> (repeat' split) <;> (try simp only [List.getElem?_set]) <;> grind [St.setBg, St.setDone, St.bg, clearW, onOk, onErr, selNext, afterSetErr]
